@@ -317,3 +317,86 @@ CONTRACTS += [
                    [('types', 'parse_union_member_types', 'types')]),
     ExtensionParse('parse_scalar_type_extension', 'scalar_type_extension_node', 'ScalarTypeExtensionNode', 'GraphQLScalarTypeExtension', []),
 ]
+
+
+# ---- input positions refer to input types
+from .c12 import Reduce, gql_type_wf        # noqa: E402
+
+
+def is_input_type_ref(s, g):
+    """the (unwrapped) named type is registered as an input type (scalar, enum, input object) of the schema"""
+    return mem(V.items(attr0(s, '_input_types')), Reduce(g))
+
+
+class ValidateTypeIsInputType(Contract):
+    """_validate_type_is_an_input_types: reports iff the unwrapped type of the argument / input field is not one of the schema's input types"""
+    key = S_ + '_validate_type_is_an_input_types'
+    property_ids = ('C12',)
+    params = ['self', 'obj', 'message_prefix']
+    self_class = 'GraphQLSchema'
+
+    def pre(self, A, st):
+        s, o = A['self'], A['obj']
+        return [('schema', z3.And(exact(s, 'GraphQLSchema'), V.oref(s) >= 0, V.is_List(attr0(s, '_input_types')))),
+                ('typed_member', z3.And(z3.Or(exact(o, 'GraphQLArgument'), exact(o, 'GraphQLInputField')), V.oref(o) >= 0, gql_type_wf(attr0(o, 'gql_type'))))]
+
+    def post(self, A, st0, out):
+        if out.kind == 'raise':
+            return never_raises(out)
+        return [('reports_iff_not_an_input_type', z3.And(V.is_List(out.value), VL.is_nil(V.items(out.value)) == is_input_type_ref(A['self'], attr0(A['obj'], 'gql_type'))))]
+
+
+def input_fields_ok(s, t):
+    fl = V.ditems(attr0(t, 'input_fields'))
+    return z3.Implies(exact(t, 'GraphQLInputObjectType'), FieldsAreInputs(vals(fl), s))
+
+
+FieldsAreInputs = ForallList('input_field_has_an_input_type', lambda f, s: is_input_type_ref(s, attr0(f, 'gql_type')), param_sorts=[V])
+InputObjectsOk = ForallList('input_object_is_composed_of_input_types', lambda name, s: input_fields_ok(s, lookup(V.ditems(attr0(s, 'type_definitions')), name)), param_sorts=[V])
+AllInputFieldDefs = ForallList('schema_input_field', lambda f: z3.And(exact(f, 'GraphQLInputField'), V.oref(f) >= 0, gql_type_wf(attr0(f, 'gql_type')), V.is_Str(attr0(f, 'name'))))
+AllInputTypeNames = ForallList('registered_input_type_name', lambda name, s: (lambda t: z3.And(V.is_Str(name), t != V.Missing, inst(t, 'GraphQLType'), V.oref(t) >= 0,
+                                                                                             z3.Implies(exact(t, 'GraphQLInputObjectType'),
+                                                                                                        z3.And(V.is_Dict(attr0(t, 'input_fields')), AllInputFieldDefs(vals(V.ditems(attr0(t, 'input_fields'))))))))
+                               (lookup(V.ditems(attr0(s, 'type_definitions')), name)), param_sorts=[V])
+
+
+class ValidateInputTypeComposition(Contract):
+    """_validate_input_type_composed_of_input_type: reports iff some field of some registered input object type is not of an input type"""
+    key = S_ + '_validate_input_type_composed_of_input_type'
+    property_ids = ('C12',)
+    params = ['self']
+    self_class = 'GraphQLSchema'
+
+    def args(self, en, names):
+        self.A = super().args(en, names)
+        return self.A
+
+    def pre(self, A, st):
+        s = A['self']
+        return [('schema', z3.And(exact(s, 'GraphQLSchema'), V.oref(s) >= 0, V.is_Dict(attr0(s, 'type_definitions')), V.is_List(attr0(s, '_input_types')),
+                                  AllInputTypeNames(V.items(attr0(s, '_input_types')), s)))]
+
+    def _outer(self, en, st, k, st0):
+        s = self.A['self']
+        errors = V.items(en.read(st.env['errors'], st))
+        return {'errors_iff_bad_input_object_so_far': VL.is_nil(errors) == InputObjectsOk(take(V.items(attr0(s, '_input_types')), k), s)}
+
+    def _inner(self, en, st, j, st0):
+        s = self.A['self']
+        errors = V.items(en.read(st.env['errors'], st))
+        e0 = V.items(en.read(st0.env['errors'], st0))
+        fl = vals(V.ditems(attr0(st.env['gqltype'], 'input_fields')))
+        return {'errors_iff_bad_field_so_far': VL.is_nil(errors) == z3.And(VL.is_nil(e0), FieldsAreInputs(take(fl, j), s))}
+
+    @property
+    def loops(self):
+        return {0: LoopContract(self._outer), 1: LoopContract(self._inner)}
+
+    def post(self, A, st0, out):
+        if out.kind == 'raise':
+            return never_raises(out)
+        s = A['self']
+        return [('reports_iff_some_input_field_has_a_non_input_type', z3.And(V.is_List(out.value), VL.is_nil(V.items(out.value)) == InputObjectsOk(V.items(attr0(s, '_input_types')), s)))]
+
+
+CONTRACTS += [ValidateTypeIsInputType(), ValidateInputTypeComposition()]
